@@ -159,7 +159,8 @@ impl G<'_> {
     fn watch_op(&mut self, b: usize) -> Op {
         let w = self.rng.below(self.res.watches.len());
         let (tb, _) = self.res.watches[w].clone();
-        if tb == b && self.rng.chance(2, 3) {
+        let holds_tx = tb == b || self.res.watch_tx_clones.get(w).map(|v| v.contains(&b)).unwrap_or(false);
+        if holds_tx && self.rng.chance(2, 3) {
             match self.rng.below(14) {
                 0..=4 => Op::WSend(w),
                 5 => Op::WSendReplace(w),
@@ -266,6 +267,9 @@ pub fn gen_program(rng: &mut Rng, family: &str, allow_timeout: bool) -> TProgram
         let t = pick_body(rng);
         let rs: Vec<usize> = (0..nb).filter(|b| *b != t && rng.chance(3, 4)).collect();
         res.watches.push((t, rs));
+        // sometimes further bodies hold clones of the sender (several tasks can wait in `closed()`)
+        let clones: Vec<usize> = if rng.chance(1, 3) { (0..nb).filter(|b| *b != t && rng.chance(1, 2)).collect() } else { vec![] };
+        res.watch_tx_clones.push(clones);
     }
     if family == "notify" || mixed {
         res.notifies = if rng.chance(1, 5) { 2 } else { 1 };
@@ -366,7 +370,7 @@ fn body(thread: bool, ops: Vec<Op>) -> Body {
     Body { thread, ops }
 }
 
-pub const DIRECTED: usize = 12;
+pub const DIRECTED: usize = 13;
 
 pub fn directed(i: usize, rng: &mut Rng) -> TProgram {
     let mut res = Res::default();
@@ -445,6 +449,18 @@ pub fn directed(i: usize, rng: &mut Rng) -> TProgram {
         10 => {
             res.mutexes = 1;
             ("task", vec![body(false, vec![Op::Lock(0), Op::Spawn(1), Op::Yield, Op::Abort(0), Op::Unlock(0), Op::Join(0), Op::Lock(0), Op::Unlock(0)]), body(false, vec![Op::Lock(0), Op::Unlock(0)])])
+        }
+        // watch: every clone of the sender waiting in closed() is released when the last receiver goes
+        12 => {
+            res.watches = vec![(1, vec![0])];
+            res.watch_tx_clones = vec![vec![2]];
+            let th = rng.chance(1, 3);
+            let mut main = vec![Op::Spawn(1), Op::Spawn(2)];
+            if rng.chance(1, 2) {
+                main.push(Op::Yield);
+            }
+            main.extend([Op::WDropRx(0), Op::Join(0), Op::Join(1)]);
+            ("watch", vec![body(false, main), body(th, vec![Op::WClosed(0)]), body(false, vec![Op::WClosed(0), Op::WTxBorrow(0)])])
         }
         // rwlock downgrade lets queued readers in, writers keep FIFO order
         _ => {
